@@ -41,7 +41,7 @@ ASSUMPTIONS = ["the scanner in Model/UnitParse.lean mirrors what re.fullmatch + 
                "the grammar of the statement is extended by the two forms the printer produces "
                "('1/' numerator, '^(p/q)' powers), which C13 requires to be accepted"]
 TRUSTED = ["modelled not verified: Python's re engine (fullmatch/finditer), int(), Fraction()"]
-LEVEL_TEXT = ('Lean 4 theorems over an exact model of tokeniser, implicit-multiplication grouping, two-stack precedence parser and evaluator: the pipeline equals a reference recursive-descent parser for ALL token lists incl. nested groups (acceptance and rejection), for all strings (C12_parse_eq_ref), the lexer accounts for every character, and parsing is sound and complete against a syntax-tree denotation; the regex texts and the precedence table are pinned from the source by the translator; differential run on grammar sentences, single-character corruptions and (thorough) all strings up to 6 characters.')
+LEVEL_TEXT = ('Lean 4 theorems over an exact model of tokeniser, implicit-multiplication grouping, two-stack precedence parser and evaluator: the pipeline equals a reference recursive-descent parser for ALL token lists incl. nested groups (acceptance and rejection), for all strings (C12_parse_eq_ref), the lexer accounts for every character, and parsing is sound and complete against a syntax-tree denotation; the regex texts and the precedence table are pinned from the source by the translator; differential run on grammar sentences, single-character corruptions and (thorough) all strings up to 6 characters; histories of calls (the same string again through every entry point, caller edits of the mappings handed out) against a Lean session model whose replies are proved to depend on the string alone (C12_session_parse_pure, _frame, _edit).')
 LEVEL_NOTE = ("parser pipeline = reference grammar proved for all token lists and all strings (induction); "
               "scanner vs. Python's re engine tied by the differential run")
 TECHNIQUE = "Lean 4 theorems over an exact model of tokeniser, grouping, two-stack parser, evaluator"
